@@ -1,12 +1,12 @@
 #!/bin/bash
-# sweep_lanes.sh [lanes] [tier] [seed] — regression sweep of every stored seeded change, in
+# sweep_lanes.sh [lanes] [tier] [seed] [output file name under seeded/] — regression sweep of every stored seeded change, in
 # parallel lanes. Each lane owns a scratch worktree of /repo HEAD and a copy of the committed
 # /verif (so /repo itself is never touched); a change is applied to the lane's repository, the
 # check of its property is run there (VERIF_REPO is honoured only by copies of /verif), and
 # the patch is reverted. Result: seeded/SWEEP.txt, one line per change:
 #   "<id> <check> exit=<rc> <top signatures>"
 # The lanes (and their build output) are removed at the end.
-lanes=${1:-4}; tier=${2:-quick}; seed=${3:-1}
+lanes=${1:-4}; tier=${2:-quick}; seed=${3:-1}; outname=${4:-SWEEP.txt}
 V=$(cd "$(dirname "$0")/.." && pwd)
 base=/tmp/sweep_lanes
 rm -rf $base; mkdir -p $base
@@ -36,7 +36,7 @@ for k in $(seq 0 $((lanes-1))); do
   ) &
 done
 wait
-{ echo "$hdr"; cat $base/lane*/out.txt | sort; echo "# done $(date -u +%FT%TZ)"; } > $V/seeded/SWEEP.txt
+{ echo "$hdr"; cat $base/lane*/out.txt | sort; echo "# done $(date -u +%FT%TZ)"; } > $V/seeded/$outname
 for k in $(seq 0 $((lanes-1))); do git -C /repo worktree remove --force $base/lane$k/repo; done
 git -C /repo worktree prune
 rm -rf $base
